@@ -5,7 +5,7 @@
 EXTENDS AnkoContainers, Json
 
 Trace == ndJsonDeserialize("cont_trace.ndjson")
-Vars == {"a", "b", "c", "m", "n", "ta", "st", "s", "t", "tm"}
+Vars == {"a", "b", "c", "m", "n", "ta", "st", "s", "t", "tm", "sv"}
 SliceVars == {"a", "b", "c", "ta"}
 
 VARIABLES st, l, skip
@@ -24,7 +24,13 @@ PostOK(s, e) ==
         LET mm == s.maps[s.vars[n].r] IN
         /\ Len(mm) = Len(e.maps[n])
         /\ \A i \in 1..Len(mm) : \E j \in 1..Len(e.maps[n]) : SameVal(mm[i][1], e.maps[n][j][1]) /\ SameVal(mm[i][2], e.maps[n][j][2])
-  /\ s.vars["st"].t = "struct" => (SameVal(s.structs[s.vars["st"].r].A, e.fields.A) /\ SameVal(s.structs[s.vars["st"].r].B, e.fields.B))
+  /\ s.vars["st"].t = "struct" =>
+        LET f == s.structs[s.vars["st"].r] IN
+        /\ SameVal(f.A, e.fields.A) /\ SameVal(f.B, e.fields.B)
+        /\ (f.M.t = "tmap") = (e.fields.M.t = "tmap")                       \* the map field holds a map / is nil
+        /\ f.M.t = "tmap" => LET mm == s.maps[f.M.r] IN                       \* ... with exactly these entries
+              /\ Len(mm) = Len(e.maps["stM"])
+              /\ \A i \in 1..Len(mm) : \E j \in 1..Len(e.maps["stM"]) : SameVal(mm[i][1], e.maps["stM"][j][1]) /\ SameVal(mm[i][2], e.maps["stM"][j][2])
 
 TStep ==
   /\ l <= Len(Trace)
